@@ -175,6 +175,9 @@ structure OCase where
 structure AppsOState where
   ll : OCase := {}
   sc : OCase := {}
+  /-- `apps.env fdl`: the history was produced by a real FdlActiveStation (engine `appsfdl`); a callback
+  outside the FDL→application contract is then a failure of C18's hypothesis chain -/
+  strict : Bool := false
 
 def lookupA {β : Type} (l : List (Nat × β)) (a : Nat) : Option β := (l.find? fun x => x.1 == a).map (·.2)
 def eraseA {β : Type} (l : List (Nat × β)) (a : Nat) : List (Nat × β) := l.filter fun x => x.1 != a
@@ -236,7 +239,13 @@ def checkView (scanner : Bool) (c : OCase) : OCase × Option (String × String) 
     else (c, none)
   else failC18 c s!"list_tracks: after two stable sweeps events say {showNatList actual}, population is {showNatList expected}"
 
-def oracleCase (scanner : Bool) (c : OCase) (w : List String) (obs : String) : OCase × Option (String × String) :=
+def oracleCase (scanner : Bool) (strict : Bool) (c : OCase) (w : List String) (obs : String) : OCase × Option (String × String) :=
+  -- leaving the contract: the case is no longer judged; in the composed engine it is reported
+  let leave := fun (c : OCase) (why : String) =>
+    if strict then
+      ({ c with inContract := false },
+       some ("C18", s!"fdl_contract (C15, hypothesis of every C18 clause): the FDL layer {why}"))
+    else ({ c with inContract := false }, (none : Option (String × String)))
   match w with
   | ["new", own] =>
     match own.toNat? with
@@ -287,7 +296,9 @@ def oracleCase (scanner : Bool) (c : OCase) (w : List String) (obs : String) : O
   | "reply" :: addr :: tg =>
     match addr.toNat?, parseTelegramApps tg with
     | some a, some t =>
-      if c.outstanding ≠ some a ∨ !allowedReply c.own a t then ({ c with inContract := false }, none) else
+      if c.outstanding ≠ some a then leave c s!"delivered a reply for #{a} although no reply from it is outstanding" else
+      if !allowedReply c.own a t then
+        leave c s!"delivered a telegram for #{a} that is no reply from it (wrong source / destination, request or token): {showTelegram t}" else
       if obs ≠ "ok" then failC18 { c with alive := false } "no_panic: receive_reply panicked" else
       let wf := diagSpec t
       let cls : Bool := if scanner then wf.isSome else true
@@ -304,7 +315,7 @@ def oracleCase (scanner : Bool) (c : OCase) (w : List String) (obs : String) : O
   | ["timeout", addr] =>
     match addr.toNat? with
     | some a =>
-      if c.outstanding ≠ some a then ({ c with inContract := false }, none) else
+      if c.outstanding ≠ some a then leave c s!"reported a time-out for #{a} although no reply from it is outstanding" else
       if obs ≠ "ok" then failC18 { c with alive := false } "no_panic: handle_timeout panicked" else
       let agrees : Bool := a == c.own || (lookupA c.env a).isNone
       ({ c with outstanding := none, cbSince := true, collected := c.collected && !c.dirty, dirty := true,
@@ -367,8 +378,12 @@ def oracleC18 (st : AppsOState) (op obs : String) : AppsOState × Option (String
   match splitWords op with
   | head :: args =>
     match head.splitOn "." with
-    | ["ll", o] => let (c, r) := oracleCase false st.ll (o :: args) obs; ({ st with ll := c }, r)
-    | ["sc", o] => let (c, r) := oracleCase true st.sc (o :: args) obs; ({ st with sc := c }, r)
+    | ["ll", o] =>
+      let strict := if o = "new" then false else st.strict
+      let (c, r) := oracleCase false strict st.ll (o :: args) obs; ({ st with ll := c, strict := strict }, r)
+    | ["sc", o] =>
+      let (c, r) := oracleCase true st.strict st.sc (o :: args) obs; ({ st with sc := c }, r)
+    | ["apps", "env"] => ({ st with strict := args == ["fdl"] }, none)
     | _ => (st, none)
   | [] => (st, none)
 
